@@ -2627,18 +2627,19 @@ the walk along a stale `open_start`); PM/FitRaiseGuard.lean names what each need
   `content_at(…).first_child.content` through a node that is not there (AttributeError / AssertionError; random schemas).
 
 `Slice.sitesOk` is the condition **in one state** (`fit_step_returns`; the end site is exact: `endSite_exact`, the start site
-at its innermost level: `startSite_exact`).  The open depths and the children present change over the run — `open_more` can
-open any node once what precedes it is placed or dropped, `drop_node` / `place_nodes` take children away from the front of an
-open node, the open end moves down the last-child chain when the only node left is opened — so the **static** guard on the
-request slice asks the condition of every *suffix* of a child list: `Slice.openPrefixOk` = `fillableKids` (every non-leaf node,
-every suffix of its children can be filled in front of) ∧ `endChainOk` (along the last-child chain every suffix of the children
-is a matchable beginning).  It is kept by everything the loop does to the unplaced content and implies `sitesOk` for all
-open depths (`openPrefixOk_invariant`).  Which slices satisfy it: every slice whose non-leaf nodes have content the
-automaton accepts from the start state whatever is cut off in front (`x*`, `x+`, `(x | y)*`, `title? block*`:
-`openPrefixOk_of_suffixClosed`) — in the bundled family every slice of the `basic`, `marks-on-doc` schemas and all slices of
-the others that do not put a `list_item(paragraph, list…)`, a `block(a, b)` (content `a b`) … on the last-child chain; the tie
-(op `fitRaise`, harness/rangeplan.py) counts them.  For the third place: `Slice.stableOk` (static; `stableOk_keeps_wf`) or the
-run hypothesis `unplacedWfWhile` (which, unlike `unplacedWfRun`, presupposes nothing about the run going through). -/
+at its innermost level: `startSite_exact`).  The depths to which the slice is open and the children present change over the
+run: `open_more` can open any node once what precedes it is placed or dropped, `drop_node` / `place_nodes` take children away
+from the front of a node that is open at its start, the end spine moves down the last-child chain when the only node left is
+opened.  So the **static** guard on the request slice asks the condition of every *suffix* of a child list:
+`Slice.openPrefixOk` = `fillableKids` (every non-leaf node, every suffix of its children can be filled in front of) ∧
+`endChainOk` (along the last-child chain every suffix of the children is a matchable beginning).  It is kept by everything the
+loop does to the unplaced content and implies `sitesOk` whatever the depths (`openPrefixOk_invariant`).  Which slices satisfy
+it: every slice whose non-leaf nodes have content the automaton accepts from the start state whatever is cut off in front
+(`x*`, `x+`, `(x | y)*`, `title? block*`) — in the bundled family the slices that do not put a `list_item(paragraph, list…)`, a
+`block(a, b)` (content `a b`), … on the last-child chain; the tie (op `fitRaise`, harness/rangeplan.py) counts them: the
+hypotheses of `fit_no_raise` hold on about nine requests in ten, among them some 3000 slices per run that are open and go
+through the Fitter.  For the third place: `Slice.stableOk` (static; `stableOk_keeps_wf`) or the run hypothesis `unplacedWfWhile`
+(which, unlike `unplacedWfRun`, presupposes nothing about the run going through). -/
 
 /-- **`fit_step_returns`** — one iteration of the loop of `fit` returns in every state that is in step, whose unplaced slice
     is well-formed and satisfies the two site conditions for its open depths (`Slice.sitesOk`) -/
